@@ -52,24 +52,37 @@ func semverIdents(r *rng.R) string {
 
 type semverCase struct {
 	str              string
-	major, minor, pt int
+	major, minor, pt uint64
 	pre, meta        string
 }
 
 func genSemver(r *rng.R) semverCase {
-	c := semverCase{major: r.Intn(30), minor: r.Intn(30), pt: r.Intn(30)}
+	c := semverCase{major: uint64(r.Intn(30)), minor: uint64(r.Intn(30)), pt: uint64(r.Intn(30))}
 	if r.P(1, 10) {
-		c.major = r.Range(100, 99999)
+		c.major = uint64(r.Range(100, 99999))
+	}
+	if r.P(1, 12) {
+		// numbers around the signed 64 bit boundary are numbers too (date-and-time
+		// stamped or hashed build counters do not get there, but the grammar does)
+		big := rng.Pick(r, []uint64{1<<31 - 1, 1 << 31, 1<<32 + 5, 1<<63 - 1, 1 << 63, 1<<64 - 1})
+		switch r.Intn(3) {
+		case 0:
+			c.major = big
+		case 1:
+			c.minor = big
+		default:
+			c.pt = big
+		}
 	}
 	parts := r.Range(1, 3)
-	s := strconv.Itoa(c.major)
+	s := strconv.FormatUint(c.major, 10)
 	if parts >= 2 {
-		s += "." + strconv.Itoa(c.minor)
+		s += "." + strconv.FormatUint(c.minor, 10)
 	} else {
 		c.minor = 0
 	}
 	if parts >= 3 {
-		s += "." + strconv.Itoa(c.pt)
+		s += "." + strconv.FormatUint(c.pt, 10)
 	} else {
 		c.pt = 0
 	}
@@ -585,6 +598,38 @@ func c14(run *ev.Run, tier string) {
 			}
 		}
 	})
+	// archlinux: with an epoch configured (any value, "0" included) the pkgver
+	// carries epoch, version and prerelease; without one the prerelease is the
+	// known C02/C15 finding and nothing is claimed here
+	var archChecked int64
+	for _, ep := range []string{"0", "1", "00", "12"} {
+		for _, pre := range []string{"rc1", "beta.2", "rc-1"} {
+			for _, rel := range []string{"", "3"} {
+				run.Case(fmt.Sprintf("archlinux-components|epoch=%s|%s|rel=%s", ep, pre, rel), true)
+				s := &gen.Spec{Name: "ordpkg", Arch: "amd64", Version: "1.2.3", Prerelease: pre, Release: rel, Epoch: ep,
+					Maintainer: "V <v@example.com>", Description: "d", MTime: 1500000000}
+				s.Contents = []*gen.Content{{Src: payload, Dst: "/opt/ordpkg/p.txt"}}
+				res := buildYAML(s.YAML(), "archlinux")
+				if res.Err != nil || res.Panic != "" {
+					run.Violate("C14/archlinux/build-error", map[string]any{"epoch": ep, "error": fmt.Sprint(res.Err, res.Panic)})
+					continue
+				}
+				p := dec.Decode("archlinux", res.Bytes, false)
+				got, _ := p.MetaGet("pkgver")
+				n, _ := strconv.Atoi(ep)
+				r := rel
+				if r == "" {
+					r = "1"
+				}
+				want := fmt.Sprintf("%d:1.2.3%s-%s", n, strings.ReplaceAll(pre, "-", "_"), r)
+				archChecked++
+				if got != want {
+					run.Violate("C14/archlinux/version-component-lost-or-duplicated", map[string]any{"epoch": ep, "prerelease": pre, "release": rel, "pkgver": got, "want": want})
+				}
+			}
+		}
+	}
+	run.Set("archlinux_pkgver_compositions_checked", archChecked)
 	run.Set("version_pairs_ordered", ordered)
 	run.Set("dpkg_compare_runs", dpkgRuns)
 	run.Set("external_oracles", map[string]bool{"dpkg --compare-versions": haveDpkg})
